@@ -237,6 +237,26 @@ def wrap_ops(m, u, mwrap, uwrap, limit):
     return m, u
 
 
+class Gene(object):
+    """a mutable gene object: numpy individuals of dtype=object hold references to such objects, so a clone that copies
+    the buffer only one level shares them with its parent (seeded change C02-r6m3 / finding F29)"""
+    __slots__ = ("v",)
+
+    def __init__(self, v):
+        self.v = [float(v)]
+
+    def __float__(self):
+        return self.v[0]
+
+    def __repr__(self):
+        return "Gene(%r)" % self.v[0]
+
+    def __deepcopy__(self, memo):
+        g = Gene(self.v[0])
+        memo[id(self)] = g
+        return g
+
+
 def build(rep, fk, spec):
     c = CLS[rep, fk]
     if rep == "tree":
@@ -247,6 +267,8 @@ def build(rep, fk, spec):
         ind = c(float(x) for x in spec["g"])
         ind.strategy = [float(x) for x in spec["strategy"]]     # mutable state outside the gene sequence
         ind.info = {"tags": [1, [2]]}
+    elif spec.get("objgenes"):
+        ind = c([Gene(x) for x in spec["g"]])              # numpy individual of dtype=object with mutable genes
     else:
         ind = c([float(x) for x in spec["g"]])
     if spec["fit"] is not None:
@@ -918,6 +940,12 @@ def mk_case(rng, fn=None, rep=None, n=None, probs=None, mate=None, mutate=None, 
     if fn == "or" and len(pop) < 2:
         cxpb = 0.0
     mates, muts = OPS[rep]
+    if rep == "numpy" and mate is None and mutate is None and composed is None and rng.random() < 0.25:
+        # dtype=object individuals holding mutable gene objects; element-wise operators that only move genes
+        for spec in inds:
+            spec["objgenes"] = True
+        mates, muts = ["cxUniform"], ["mutShuffleIndexes"]
+        composed = False
     d = {"fn": fn, "rep": rep, "fk": fk, "inds": inds, "pop": pop, "cxpb": cxpb, "mutpb": mutpb,
          "mate": mate or rng.choice(mates), "mutate": mutate or rng.choice(muts),
          "indpb": rng.choice([0.0, 0.5, 0.5, 1.0]), "seed": rng.getrandbits(32), "bias": rng.random() < 0.35}
